@@ -68,11 +68,12 @@ type ctl struct {
 	blk       *ssa.BasicBlock
 	idx       int
 	defers    *dnode
-	unwinding bool // frame is being unwound by a panic
-	recovered bool // a deferred call executed recover() during unwinding
-	running   bool // frame is in the middle of RunDefers (normal exit)
-	deferred  bool // this frame is a deferred call of the frame below
-	recovHit  bool // the last recover() executed in this frame returned non-nil
+	unwinding bool            // frame is being unwound by a panic
+	recovered bool            // a deferred call executed recover() during unwinding
+	running   bool            // frame is in the middle of RunDefers (normal exit)
+	deferred  bool            // this frame is a deferred call of the frame below
+	recovHit  bool            // the last recover() executed in this frame returned non-nil
+	prev      *ssa.BasicBlock // block this frame came from (selects the phi edges of blk)
 }
 
 type tnode struct {
@@ -157,6 +158,11 @@ func (s *State) key() string {
 			dn = c.defers.n
 		}
 		fmt.Fprintf(&b, "%s@%d.%d/d%d", c.fc.id, c.blk.Index, c.idx, dn)
+		if c.prev != nil && c.idx == 0 && len(c.blk.Instrs) > 0 {
+			if _, isPhi := c.blk.Instrs[0].(*ssa.Phi); isPhi {
+				fmt.Fprintf(&b, "<%d", c.prev.Index) // the phis have not taken their values yet
+			}
+		}
 		if c.unwinding {
 			b.WriteByte('u')
 		}
@@ -201,9 +207,9 @@ func (s *State) key() string {
 type ExitKind int
 
 const (
-	ExitReturn ExitKind = iota
-	ExitPanic           // panic left the root
-	ExitGoroutine       // spawned goroutine body returned
+	ExitReturn    ExitKind = iota
+	ExitPanic              // panic left the root
+	ExitGoroutine          // spawned goroutine body returned
 	ExitGoroutinePanic
 )
 
@@ -266,6 +272,9 @@ type Engine struct {
 	Inlined   map[*ssa.Function]bool
 	phiBusy   map[*ssa.Phi]bool
 	evFree    map[*ssa.Function]bool
+	// StepOver: do not inline helpers that contain no observable event (opt-in: rules that
+	// watch branch outcomes or bind helper results must see every helper)
+	StepOver bool
 	Budget    int
 	Exhausted bool
 	// Resolve optionally maps an interface invoke to the single in-scope method that
@@ -828,6 +837,26 @@ func (e *Engine) explore(st *State) {
 				}
 			}
 		}
+		// a boolean phi takes the constant of the edge the path came in by (flag variables:
+		// `removed := false; …; removed = true; …; if !removed {…}`)
+		if ph, ok := in.(*ssa.Phi); ok && t.prev != nil && isBoolType(ph.Type()) {
+			for i, pr := range t.blk.Preds {
+				if pr != t.prev || i >= len(ph.Edges) {
+					continue
+				}
+				key := "v:" + fc.id + ":" + ph.Name()
+				if !e.rule.PredOK(key) {
+					break
+				}
+				if k, isK := ph.Edges[i].(*ssa.Const); isK && k.Value != nil && isBoolConst(k) {
+					st.pi[key] = k.Value.ExactString() == "true"
+				} else if ek, pol, stable := e.PredKey(fc, ph.Edges[i]); stable {
+					if val, known := st.pi[ek]; known {
+						st.pi[key] = val == pol
+					}
+				}
+			}
+		}
 		switch in := in.(type) {
 		case *ssa.If:
 			key, pol, stable := e.PredKey(fc, in.Cond)
@@ -859,14 +888,14 @@ func (e *Engine) explore(st *State) {
 				}
 				e.rule.OnEdge(e, n, fc, t.blk, succ)
 				nt := n.top()
-				nt.blk, nt.idx = succ, 0
+				nt.prev, nt.blk, nt.idx = t.blk, succ, 0
 				e.explore(n)
 			}
 			return
 		case *ssa.Jump:
 			succ := t.blk.Succs[0]
 			e.rule.OnEdge(e, st, fc, t.blk, succ)
-			t.blk, t.idx = succ, 0
+			t.prev, t.blk, t.idx = t.blk, succ, 0
 			continue
 		case *ssa.Return:
 			// constant boolean results of an inlined call become known predicates of the
@@ -947,7 +976,7 @@ func (e *Engine) explore(st *State) {
 				e.noteRecover(st)
 			}
 			callee, mc := e.StaticCallee(fc, in.Common())
-			if callee != nil && e.P.InScope(callee) && len(callee.Blocks) > 0 && e.rule.Inline(callee) && !fc.onStack(callee) && !e.eventFree(callee) {
+			if callee != nil && e.P.InScope(callee) && len(callee.Blocks) > 0 && e.rule.Inline(callee) && !fc.onStack(callee) && !(e.StepOver && e.eventFree(callee)) {
 				t.idx++ // continuation
 				nfc := &FrameCtx{id: fc.id + ">" + in.(ssa.Value).Name(), fn: callee, parent: fc, args: callArgs(in.Common()), closure: mc, depth: fc.depth + 1, site: in}
 				st.stack = append(st.stack, ctl{fc: nfc, blk: callee.Blocks[0]})
@@ -1103,6 +1132,11 @@ func maxStr(a, b string) string {
 		return b
 	}
 	return a
+}
+
+func isBoolType(t types.Type) bool {
+	b, ok := t.Underlying().(*types.Basic)
+	return ok && b.Info()&types.IsBoolean != 0
 }
 
 func isBoolConst(k *ssa.Const) bool {
